@@ -1,6 +1,7 @@
 //! hx-app: conformance harness for the parts of /repo that live in the root crate `passage`
 //! (configuration types, construction of the Dyn* adapters from configuration).
 mod routing;
+mod serve;
 mod tables;
 
 fn main() {
@@ -8,6 +9,7 @@ fn main() {
     let sub = args.get(1).map(|s| s.as_str()).unwrap_or("");
     match sub {
         "routing" => routing::main(&args[2..]),
+        "serve" => serve::main(&args[2..]),
         "tables" => tables::main(&args[2..]),
         _ => {
             eprintln!("usage: hx-app <routing|tables> --in in.ndjson --out out.ndjson");
